@@ -126,15 +126,6 @@ example : (Meta.data ⟨9, 29836258, 7, 1, 4294967295, 65535, 255, 255, 65535, 2
 example : (Meta.le ⟨10, 1, 29836258, 7, 1, 0, 256, 0, 3, 8, 4, 0x0f0f0f0f, 4, 0⟩).inRange ∧
     (Meta.le ⟨10, 1, 29836258, 7, 1, 0, 256, 0, 3, 8, 4, 0x0f0f0f0f, 4, 0⟩).valid = true := by decide
 
-/-- a toy AEAD: tag = first 16 bytes of (key ‖ nonce ‖ zeros) -/
-def toyTag (k n : Bytes) : Bytes := (k ++ n ++ List.replicate 16 0).take 16
-def toyAead : AeadFns where
-  sealF k n p := p ++ toyTag k n
-  openF k n c := if c.length ≥ 16 ∧ c.drop (c.length - 16) = toyTag k n then some (c.take (c.length - 16)) else none
-
-theorem toyTag_len (k n : Bytes) : (toyTag k n).length = 16 := by
-  simp [toyTag]; omega
-
 example : AeadLaws toyAead where
   seal_len k n p := by simp [toyAead, toyTag_len]
   open_seal k n p := by
